@@ -67,17 +67,8 @@ inductive NOp
   | xGetC (d s k : Nat)
   | aPushV (d s : Nat)      -- V[d].toArray().append(V[s])
   | aGetV (d s k : Nat)     -- V[d] = ((const Variant&)V[s]).toArray()[k]
-  -- round 7: constructors and accessors that the earlier rounds did not drive
-  | sCap (d n : Nat)                        -- ~String(); new String(usize capacity): an empty owned block of exactly that capacity
-  | sLitU (d : Nat) (bytes : List Nat)      -- attach(mem, len) to memory that is NOT followed by a 0 byte (inline tag `tagStrU`)
-  | sConst (d : Nat)                        -- operator const char*() (both overloads): detach(len, len) iff data->str[len] != 0
-  | sEditTo (d : Nat) (nv : List Nat)       -- detach(len, len) + in-place edit of the bytes to nv (toUpperCase)
-  | boxCtor (d tag : Nat) (val : List Nat)  -- ~Variant(); new Variant(const String&/List&/Array&/HashMap&) and
-                                            -- ~Xml::Variant(); new Xml::Variant(const String&/Element&): release, then a fresh box
 deriving Repr
 
-/-- inline tag of attached String memory whose byte after the end is not 0 (`operator const char*()` detaches it) -/
-def tagStrU : Nat := 1
 
 def blkOfTag (st : St) (d tag : Nat) : Option Nat :=
   match st.slots d with
@@ -150,11 +141,6 @@ def preN (st : St) (tid : Nat) : NOp → List Act
     if d = s ∨ isNoneH st s = true then [.move d d] else [.readRef d (blkTag st d == some tagVArr)]
   | .aGetV d s k => getEmb st tid d s k tagVArr true
   | .xGetC d s k => getEmb st tid d s k tagXElem false
-  | .sCap d n => rel d ++ [.alloc d tagStr [] n]
-  | .sLitU d bytes => rel d ++ [.setInl d tagStrU bytes]
-  | .sConst d => if inlTag st d == some tagStrU then [.readRef d true] else []
-  | .sEditTo d _ => [.readRef d true]
-  | .boxCtor d tag val => rel d ++ [.alloc d tag val 0]
 
 /-- release all embedded handles of block c (the sole owner, through its slot d): `List::clear()` of an in-place
     `operator=(const List&)` -/
@@ -187,17 +173,6 @@ def postN (st : St) (tid : Nat) : NOp → List Act
   | .vGetV .. => []
   | .xGetC .. => []
   | .aGetV .. => []
-  | .sCap .. => []
-  | .sLitU .. => []
-  | .sConst d =>
-    -- only unterminated attached memory is detached: never counted, so the plain read fails and the data is cloned
-    if isWriting st tid then [.write (viewVal st d)]
-    else if inlTag st d == some tagStrU then
-      cloneAllocFirst tid d tagStr (viewVal st d) (st.capTab siteDetach (viewVal st d).length)
-    else []
-  | .sEditTo d nv =>
-    if isWriting st tid then [.write nv] else cloneAllocFirst tid d tagStr nv (st.capTab siteDetach nv.length)
-  | .boxCtor .. => []
 
 /-- single-threaded semantics of one call, with the destructor cascade -/
 def apiStepN (st : St) (tid : Nat) (op : NOp) : Option St :=
